@@ -98,4 +98,363 @@ theorem setHasVote_ok (B : Int) (p : PRS) (h : Inv B p) (height round t i : Int)
     simp [good_setIndex B (some b) g i hi]
 
 
+/-- consistent (possibly empty) array, as the node or a validated VoteSetBits provides -/
+def Consistent : Option BitArr → Prop
+  | none => True
+  | some b => 0 ≤ b.bits ∧ (b.elems : Int) = (b.bits + 63) / 64
+
+theorem good_consistent (B : Int) (a : Option BitArr) (h : Good B a) : Consistent a := by
+  cases a with
+  | none => trivial
+  | some b => exact ⟨by have := h.1; omega, h.2.2⟩
+
+theorem consistent_of_validateBasic (a : Option BitArr) (h : BitArr.validateBasic a = true) : Consistent a := by
+  cases a with
+  | none => trivial
+  | some b =>
+    simp only [BitArr.validateBasic, Bool.and_eq_true, decide_eq_true_eq] at h
+    exact h
+
+theorem copyBits_ok (bits : Int) (h : 0 ≤ bits) :
+    copyBits bits = some { bits := bits, elems := ((bits + 63) / 64).toNat } := by
+  unfold copyBits
+  rw [numElems_nonneg bits h]
+  have : ¬ ((bits + 63) / 64 < 0) := by omega
+  simp [this]
+
+/-- `Sub` of consistent arrays does not panic; the result is nil or has the first operand's size -/
+theorem sub_ok (a o : Option BitArr) (ha : Consistent a) (ho : Consistent o) :
+    ∃ r, sub a o = some r ∧ Consistent r ∧ (∀ x, r = some x → ∃ y, a = some y ∧ x.bits = y.bits) := by
+  cases a with
+  | none => exact ⟨none, rfl, trivial, by intro x hx; cases hx⟩
+  | some x =>
+    cases o with
+    | none => exact ⟨none, rfl, trivial, by intro x hx; cases hx⟩
+    | some y =>
+      obtain ⟨hx0, hxe⟩ := ha
+      simp only [sub, copyBits_ok x.bits hx0]
+      have : ¬ (min x.elems y.elems > ((x.bits + 63) / 64).toNat) := by omega
+      simp only [this, if_false]
+      exact ⟨_, rfl, ⟨hx0, by simp; omega⟩, by intro z hz; cases hz; exact ⟨x, rfl, rfl⟩⟩
+
+/-- `Or` of consistent arrays does not panic -/
+theorem or_ok (a o : Option BitArr) (ha : Consistent a) (ho : Consistent o) :
+    ∃ r, or a o = some r ∧ Consistent r := by
+  cases a with
+  | none =>
+    cases o with
+    | none => exact ⟨none, rfl, trivial⟩
+    | some y => exact ⟨some y, rfl, ho⟩
+  | some x =>
+    cases o with
+    | none => exact ⟨some x, rfl, ha⟩
+    | some y =>
+      obtain ⟨hx0, hxe⟩ := ha
+      obtain ⟨hy0, hye⟩ := ho
+      have hm : 0 ≤ max x.bits y.bits := by omega
+      simp only [or, copyBits_ok _ hm]
+      have : ¬ (min x.elems y.elems > ((max x.bits y.bits + 63) / 64).toNat) := by omega
+      simp only [this, if_false]
+      exact ⟨_, rfl, ⟨hm, by simp; omega⟩⟩
+
+theorem pickRandomOk_of (a : Option BitArr) (h : ∀ x, a = some x → 1 ≤ x.bits ∧ (x.elems : Int) = (x.bits + 63) / 64) :
+    pickRandomOk a = true := by
+  cases a with
+  | none => rfl
+  | some x =>
+    obtain ⟨h1, h2⟩ := h x rfl
+    simp only [pickRandomOk, Bool.and_eq_true, decide_eq_true_eq]
+    omega
+
+
+/-- everything that can touch a peer's state: the peer's messages (after `ValidateBasic`) and the
+calls of the node's own gossip routines, with the node-side inputs they use -/
+inductive Op
+  | newRoundStep (m : NewRoundStep)
+  | newValidBlock (m : NewValidBlock) (isCommit : Bool)
+  | proposalPOL (m : ProposalPOL)
+  | hasVote (m : HasVote)
+  | voteSetBits (m : VoteSetBits) (t : Int) (ourVotes : Option BitArr)
+  | proposal (height round polRound : Int) (total : Nat)
+  | blockPart (height round : Int) (index : Nat)
+  | vote (nodeHeight valSize lastCommitSize vh vr vt vidx : Int)
+  | pickSendVote (v : OurVotes) (pick : Option Int)
+  | gossipPart (ourTotal : Int) (pick : Option Int)
+  | catchupPart (pick : Option Int)
+  | initParts (total : Nat)
+
+/-- the transition; `none` = the Go code panics -/
+def step (p : PRS) : Op → Option PRS
+  | .newRoundStep m => some (applyNewRoundStep p m)
+  | .newValidBlock m c => some (applyNewValidBlock p m c)
+  | .proposalPOL m => some (applyProposalPOL p m)
+  | .hasVote m => applyHasVote p m
+  | .voteSetBits m t our => applyVoteSetBits p m t our
+  | .proposal h r pr total => some (setHasProposal p h r pr total)
+  | .blockPart h r i => setHasProposalBlockPart p h r i
+  | .vote nh vs lcs vh vr vt vi => receiveVote p nh vs lcs vh vr vt vi
+  | .pickSendVote v pick => pickSendVote p v pick
+  | .gossipPart t pick => gossipPart p t pick
+  | .catchupPart pick => gossipCatchupPart p pick
+  | .initParts total => some (initProposalBlockParts p total)
+
+/-- what is known about an op: messages passed `ValidateBasic` (for a proposal: the part-count
+bound); what the node supplies is consistent and at most `B` (its validator count / part count);
+an index returned by `PickRandom` is non-negative -/
+def Op.admissible (B : Int) : Op → Prop
+  | .newRoundStep _ => True
+  | .newValidBlock m _ => m.valid = true
+  | .proposalPOL m => m.valid = true
+  | .hasVote m => m.valid = true
+  | .voteSetBits m _ our => m.valid = true ∧ Consistent our
+  | .proposal _ _ _ total => (total : Int) ≤ maxBlockPartsCount
+  | .blockPart _ _ _ => True
+  | .vote _ vs lcs _ _ _ vi => vs ≤ B ∧ lcs ≤ B ∧ 0 ≤ vi
+  | .pickSendVote v pick => v.size ≤ B ∧ ∀ i, pick = some i → 0 ≤ i
+  | .gossipPart t pick => t ≤ B ∧ ∀ i, pick = some i → 0 ≤ i
+  | .catchupPart pick => ∀ i, pick = some i → 0 ≤ i
+  | .initParts total => (total : Int) ≤ B
+
+theorem good_of_nvb (B : Int) (hB : maxBlockPartsCount ≤ B) (m : NewValidBlock) (h : m.valid = true) :
+    Good B m.parts := by
+  unfold NewValidBlock.valid at h
+  cases hp : m.parts with
+  | none => trivial
+  | some b =>
+    simp only [hp, size, BitArr.validateBasic] at h
+    by_cases h1 : m.height < 0 <;> simp only [h1, if_true, if_false] at h
+    · cases h
+    by_cases h2 : m.round < 0 <;> simp only [h2, if_true, if_false] at h
+    · cases h
+    split at h
+    · cases h
+    split at h
+    · cases h
+    split at h
+    · cases h
+    split at h
+    · cases h
+    split at h
+    · cases h
+    rename_i _ hv h0 _ hmax
+    simp only [Bool.and_eq_true, decide_eq_true_eq] at hv
+    have hv' : 0 ≤ b.bits ∧ (b.elems : Int) = (b.bits + 63) / 64 := by
+      by_cases c1 : 0 ≤ b.bits
+      · by_cases c2 : (b.elems : Int) = (b.bits + 63) / 64
+        · exact ⟨c1, c2⟩
+        · simp [c1, c2] at hv
+      · simp [c1] at hv
+    exact ⟨by omega, by omega, hv'.2⟩
+
+
+theorem vb_cases (b : BitArr) (hv : ¬ ¬ (decide (0 ≤ b.bits) && decide ((b.elems : Int) = (b.bits + 63) / 64)) = true) :
+    0 ≤ b.bits ∧ (b.elems : Int) = (b.bits + 63) / 64 := by
+  by_cases c1 : 0 ≤ b.bits
+  · by_cases c2 : (b.elems : Int) = (b.bits + 63) / 64
+    · exact ⟨c1, c2⟩
+    · simp [c1, c2] at hv
+  · simp [c1] at hv
+
+theorem good_of_pol (B : Int) (hB : maxVotesCount ≤ B) (m : ProposalPOL) (h : m.valid = true) :
+    Good B m.pol := by
+  unfold ProposalPOL.valid at h
+  cases hp : m.pol with
+  | none => trivial
+  | some b =>
+    simp only [hp, size, BitArr.validateBasic] at h
+    split at h
+    · cases h
+    split at h
+    · cases h
+    split at h
+    · cases h
+    split at h
+    · cases h
+    split at h
+    · cases h
+    rename_i _ _ hv h0 hmax
+    have hv' := vb_cases b hv
+    exact ⟨by omega, by omega, hv'.2⟩
+
+theorem consistent_of_vsb (m : VoteSetBits) (h : m.valid = true) : Consistent m.votes := by
+  unfold VoteSetBits.valid at h
+  cases hp : m.votes with
+  | none => trivial
+  | some b =>
+    simp only [hp, size, BitArr.validateBasic] at h
+    split at h
+    · cases h
+    split at h
+    · cases h
+    split at h
+    · cases h
+    split at h
+    · cases h
+    rename_i _ _ _ hv
+    exact vb_cases b hv
+
+theorem hasVote_index (m : HasVote) (h : m.valid = true) : 0 ≤ m.index := by
+  unfold HasVote.valid at h
+  by_cases c : m.index < 0
+  · simp [c] at h
+  · omega
+
+/-- `validated_handlers_in_bounds`, one step: from a peer state whose arrays are all `Good`, an
+admissible op never panics and leaves all arrays `Good` -/
+theorem step_ok (B : Int) (hB1 : maxBlockPartsCount ≤ B) (hB2 : maxVotesCount ≤ B)
+    (p : PRS) (h : Inv B p) (op : Op) (ha : op.admissible B) :
+    ∃ p', step p op = some p' ∧ Inv B p' := by
+  cases op with
+  | newRoundStep m => exact ⟨_, rfl, inv_applyNewRoundStep B p m h⟩
+  | newValidBlock m c =>
+    refine ⟨_, rfl, ?_⟩
+    have g := good_of_nvb B hB1 m ha
+    obtain ⟨h1, h2, h3, h4, h5, h6⟩ := h
+    unfold applyNewValidBlock
+    split
+    · exact ⟨h1, h2, h3, h4, h5, h6⟩
+    · split
+      · exact ⟨h1, h2, h3, h4, h5, h6⟩
+      · exact ⟨g, h2, h3, h4, h5, h6⟩
+  | proposalPOL m =>
+    refine ⟨_, rfl, ?_⟩
+    have g := good_of_pol B hB2 m ha
+    obtain ⟨h1, h2, h3, h4, h5, h6⟩ := h
+    unfold applyProposalPOL
+    split
+    · exact ⟨h1, h2, h3, h4, h5, h6⟩
+    · split
+      · exact ⟨h1, h2, h3, h4, h5, h6⟩
+      · exact ⟨h1, g, h3, h4, h5, h6⟩
+  | hasVote m =>
+    refine ⟨p, ?_, h⟩
+    simp only [step, applyHasVote]
+    split
+    · rfl
+    · exact setHasVote_ok B p h _ _ _ _ (hasVote_index m ha)
+  | voteSetBits m t our =>
+    refine ⟨p, ?_, h⟩
+    obtain ⟨hv, hc⟩ := ha
+    simp only [step, applyVoteSetBits]
+    have g := good_getVoteBitArray B p h m.height m.round t
+    cases hb : getVoteBitArray p m.height m.round t with
+    | none => rfl
+    | some v =>
+      rw [hb] at g
+      cases our with
+      | none => rfl
+      | some o =>
+        obtain ⟨r, hr, hrc, _⟩ := sub_ok (some v) (some o) (good_consistent B _ g) hc
+        obtain ⟨r2, hr2, _⟩ := or_ok r m.votes hrc (consistent_of_vsb m hv)
+        simp [hr, hr2]
+  | proposal hh r pr total =>
+    refine ⟨_, rfl, ?_⟩
+    have g := good_newBitArray B total (by simp only [Op.admissible] at ha; omega)
+    obtain ⟨h1, h2, h3, h4, h5, h6⟩ := h
+    unfold setHasProposal
+    split
+    · exact ⟨h1, h2, h3, h4, h5, h6⟩
+    · split
+      · exact ⟨h1, h2, h3, h4, h5, h6⟩
+      · simp only
+        split
+        · exact ⟨h1, h2, h3, h4, h5, h6⟩
+        · exact ⟨g, trivial, h3, h4, h5, h6⟩
+  | blockPart hh r i =>
+    refine ⟨p, ?_, h⟩
+    simp only [step, setHasProposalBlockPart]
+    split
+    · rfl
+    · simp [good_setIndex B p.pbp h.pbp i (by omega)]
+  | vote nh vs lcs vh vr vt vi =>
+    obtain ⟨a1, a2, a3⟩ := ha
+    have i1 := inv_ensureVoteBitArrays B p nh vs a1 h
+    have i2 := inv_ensureVoteBitArrays B _ (nh - 1) lcs a2 i1
+    exact ⟨_, setHasVote_ok B _ i2 vh vr vt vi a3, i2⟩
+  | pickSendVote v pick =>
+    obtain ⟨a1, a2⟩ := ha
+    simp only [step, pickSendVote]
+    split
+    · exact ⟨p, rfl, h⟩
+    · have i1 : Inv B (if v.isCommit = true then ensureCatchupCommitRound p v.height v.round v.size else p) := by
+        split
+        · exact inv_ensureCatchupCommitRound B p _ _ _ a1 h
+        · exact h
+      have i2 := inv_ensureVoteBitArrays B _ v.height v.size a1 i1
+      generalize ensureVoteBitArrays _ v.height v.size = p2 at i2
+      have g := good_getVoteBitArray B p2 i2 v.height v.round v.type
+      cases hb : getVoteBitArray p2 v.height v.round v.type with
+      | none => exact ⟨p2, rfl, i2⟩
+      | some ps =>
+        rw [hb] at g
+        have gn := good_newBitArray B v.size a1
+        obtain ⟨d, hd, hdc, hdb⟩ := sub_ok (newBitArray v.size) (some ps) (good_consistent B _ gn) (good_consistent B _ g)
+        have hpk : pickRandomOk d = true := by
+          apply pickRandomOk_of
+          intro x hx
+          obtain ⟨y, hy, hxy⟩ := hdb x hx
+          rw [hx] at hdc
+          rw [hy] at gn
+          exact ⟨by rw [hxy]; exact gn.1, hdc.2⟩
+        simp only [hd, hpk]
+        cases pick with
+        | none => exact ⟨p2, by simp, i2⟩
+        | some i => exact ⟨p2, by simpa using setHasVote_ok B p2 i2 _ _ _ i (a2 i rfl), i2⟩
+  | gossipPart t pick =>
+    obtain ⟨a1, a2⟩ := ha
+    simp only [step, gossipPart]
+    have gn := good_newBitArray B t a1
+    obtain ⟨d, hd, hdc, hdb⟩ := sub_ok (newBitArray t) p.pbp (good_consistent B _ gn) (good_consistent B _ h.pbp)
+    have hpk : pickRandomOk d = true := by
+      apply pickRandomOk_of
+      intro x hx
+      obtain ⟨y, hy, hxy⟩ := hdb x hx
+      rw [hx] at hdc
+      rw [hy] at gn
+      exact ⟨by rw [hxy]; exact gn.1, hdc.2⟩
+    simp only [hd, hpk]
+    cases pick with
+    | none => exact ⟨p, by simp, h⟩
+    | some i =>
+      refine ⟨p, ?_, h⟩
+      simp [setHasProposalBlockPart, good_setIndex B p.pbp h.pbp i (a2 i rfl)]
+  | catchupPart pick =>
+    simp only [step, gossipCatchupPart, not]
+    have hpk : pickRandomOk p.pbp = true := by
+      apply pickRandomOk_of
+      intro x hx
+      have := h.pbp
+      rw [hx] at this
+      exact ⟨this.1, this.2.2⟩
+    simp only [hpk]
+    cases pick with
+    | none => exact ⟨p, by simp, h⟩
+    | some i =>
+      refine ⟨p, ?_, h⟩
+      simp [setHasProposalBlockPart, good_setIndex B p.pbp h.pbp i (ha i rfl)]
+  | initParts total =>
+    refine ⟨_, rfl, ?_⟩
+    have g := good_newBitArray B total ha
+    obtain ⟨h1, h2, h3, h4, h5, h6⟩ := h
+    unfold initProposalBlockParts
+    split
+    · exact ⟨h1, h2, h3, h4, h5, h6⟩
+    · exact ⟨g, h2, h3, h4, h5, h6⟩
+
+
+/-- a run of ops from a peer state; `none` as soon as one step panics -/
+def run : PRS → List Op → Option PRS
+  | p, [] => some p
+  | p, op :: ops => (step p op).bind fun p' => run p' ops
+
+theorem run_ok (B : Int) (hB1 : maxBlockPartsCount ≤ B) (hB2 : maxVotesCount ≤ B) (ops : List Op) :
+    ∀ (p : PRS), Inv B p → (∀ op ∈ ops, op.admissible B) → ∃ p', run p ops = some p' ∧ Inv B p' := by
+  induction ops with
+  | nil => intro p h _; exact ⟨p, rfl, h⟩
+  | cons op ops ih =>
+    intro p h ha
+    obtain ⟨p1, h1, i1⟩ := step_ok B hB1 hB2 p h op (ha op (by simp))
+    obtain ⟨p2, h2, i2⟩ := ih p1 i1 (fun o ho => ha o (by simp [ho]))
+    exact ⟨p2, by simp [run, h1, h2], i2⟩
+
 end Tmv.PeerState
